@@ -42,6 +42,7 @@ pub fn reexec(e: &Value) -> (Value, bool) {
         }
         "lookup" => geo::lookup_event(ll(&e["p"]), i("res"), e["kind"].as_str().unwrap_or("replay")),
         "centre" => geo::centre_event(from_quads(&e["id"])),
+        "lookupsteps" => geo::lookupsteps_event(ll(&e["p"]), i("res")).unwrap_or_else(|| e.clone()),
         "area" => geo::area_event(from_quads(&e["id"])),
         "localmesh" => geo::localmesh_event(from_quads(&e["id"])),
         "boundary" => geo::boundary_event(from_quads(&e["id"]), if e["dflt"].as_bool().unwrap_or(false) { None } else { Some(i("n")) }, e["closed"].as_bool().unwrap_or(true)),
